@@ -101,18 +101,22 @@ def isShortest (o s k : Nat) (c : Int) : Bool :=
 
 def absDiff (a b : Nat) : Nat := (a - b) + (b - a)
 
+/-- Scaled distance between the decimal `s × 10^c` and the double with ordinal `o`
+(`|s·10^c − x| · decDen c · scale`). -/
+def distTo (o s : Nat) (c : Int) : Nat := absDiff (decNum s c * scale) (magOrd o * decDen c)
+
 /-- "If there are multiple possibilities for s, choose the value of s for which s × 10^(n−k) is closest in value
 to x" (ECMA-262 Number::toString, note 2 — a recommendation; Gay's and Grisu's shortest modes both implement it).
-`2·|v − x| ≤ 10^c` makes `v` at least as close as any other k-digit decimal on the same or a coarser grid; the
-last conjunct handles the only finer-grid competitors (below 10^(n−1), relevant only when `s = 10^(k−1)`):
-the largest of them is either outside the rounding interval or not closer. -/
+Only decimals that parse back to x compete.  The neighbours `s ± 1` on the same grid are either outside the
+rounding interval or not closer; when `s = 10^(k−1)` the neighbour below is on the ten times finer grid of the
+decade below: t = (10^k − 1) × 10^(c−1), compared with v = (10·s) × 10^(c−1). -/
 def isClosest (o s k : Nat) (c : Int) : Bool :=
-  decide (2 * absDiff (decNum s c * scale) (magOrd o * decDen c) ≤ 10 ^ c.toNat * scale) &&
-    (decide (10 ^ (k - 1) < s) ||
-      -- t = (10^k − 1) × 10^(c−1), the largest k-digit decimal below 10^(n−1); v = (10·s) × 10^(c−1)
-      !lowerOK (decNum (10 ^ k - 1) (c - 1)) (decDen (c - 1)) o ||
-      decide (absDiff (decNum (10 * s) (c - 1) * scale) (magOrd o * decDen (c - 1)) ≤
-              absDiff (decNum (10 ^ k - 1) (c - 1) * scale) (magOrd o * decDen (c - 1))))
+  (!roundsTo (s + 1) c o || decide (distTo o s c ≤ distTo o (s + 1) c)) &&
+  (if 10 ^ (k - 1) < s then
+     !roundsTo (s - 1) c o || decide (distTo o s c ≤ distTo o (s - 1) c)
+   else
+     !roundsTo (10 ^ k - 1) (c - 1) o ||
+       decide (distTo o (10 * s) (c - 1) ≤ distTo o (10 ^ k - 1) (c - 1)))
 
 /-! ## checker 3: toFixed (ECMA-262 Number.prototype.toFixed step 9.a:
 "Let n be an integer for which n / 10^f − x is as close to zero as possible. If there are two such n, pick the
